@@ -11,6 +11,7 @@ CONSTANTS
   PurgeAt <- PurgeAlways
   DropReopenedWindow = TRUE
   SnapshotConsumedOnLoad = TRUE
+  ClearRevertedColumn = TRUE
   MaxSteps = 14
 INIT MBTInit
 NEXT MBTNext
